@@ -520,6 +520,7 @@ func Run(c *gen.Ctx) error {
 	meta.Rule = "one field with 10 arguments (Int, String with default, Int!, [Int], [[Int!]!], input object with nested input, defaults, enum, lists; list of inputs; enum; ID; Boolean) on probe servers generated from the current templates under {defaults; nullable_input_omittable + return_pointers_in_unmarshalinput; call_argument_directives_with_null + struct_fields_always_pointers=false}; each argument given by literal, variable with value, variable without value, or variable default; explicit nulls, omitted fields, single values where lists are expected, variables inside object literals with and without values; one Coq case per (request, argument). distinct_nontrivial = distinct (argument, provided value) pairs."
 	meta.Samples = []any{descrs[0], descrs[len(descrs)/2]}
 	meta.Distribution = map[string]any{"requests": len(reqs), "generated_but_invalid_discarded": invalid, "configurations": len(probes), "by_argument": stats}
+	transportVariables(gen.NewRand(c.Seed+61), meta, c.Thorough())
 	return meta.Write(c.OutDir)
 }
 
